@@ -11,11 +11,14 @@ MANIFEST = dict(
          "or HTTP_PROXY, QUERY_STRING is the part after the first '?', SCRIPT_NAME ++ PATH_INFO is the "
          "path; models tied to the C by differential runs through the real request parser, "
          "gw_check_extension and the real builders under ASan/UBSan, plus independent Python decoders",
-    note="trusted: Lean kernel, hand-written models validated by the h_cgi correspondence (in-process: "
-         "socket I/O and the event loop of gw_handle_subrequest are not executed; the body hand-over is "
-         "driven with explicit arrival schedules, temp-file spooling on and off), FastCGI constants "
-         "regenerated from compat/fastcgi.h; mod_ajp13/wstunnel/sockproxy and proxy URL/host remapping "
-         "not modelled",
+    note="trusted: Lean kernel, hand-written models validated by the h_cgi correspondence: (a) the real "
+         "request parser + gw_check_extension + the real builders with explicit body arrival schedules "
+         "(temp-file spooling on/off), exact byte comparison; (b) the real gw_handle_subrequest / "
+         "gw_write_request / gw_write_refill_wb / h1_reqbody_read run in-process on client bytes in "
+         "Content-Length or chunked framing with scripted read/write timing and a scripted backend socket, "
+         "compared after decoding with independent Python decoders (connect phase, response reading, HTTP/2 "
+         "DATA path and the event loop are not executed); FastCGI constants regenerated from compat/fastcgi.h; "
+         "mod_ajp13/wstunnel/sockproxy and proxy URL/host remapping not modelled",
     tech="Lean 4 proof over hand-written model + differential correspondence (in-process C harness)",
     ref="6/C09")
 
@@ -81,6 +84,9 @@ class Case:
         self.bodytok, self.sched = t[17], t[18].split(",")
 
     def body(self):
+        if self.bodytok[0] == "k":
+            ln, seed = self.bodytok[1:].split(".")[:2]
+            return gen_body("r%s.%s" % (ln, seed))
         return gen_body(self.bodytok)
 
 
@@ -560,7 +566,7 @@ def oracle_full(line, out):
     parsed, res = parse_obs(out)
     if parsed is None:
         return None
-    if c.op in ("fcgi", "scgi", "uwsgi") and " len=-1 " in parsed and not c.sched[0].startswith("c"):
+    if c.op in ("fcgi", "scgi", "uwsgi", "cgibody") and " len=-1 " in parsed and not c.sched[0].startswith("c"):
         # CGI-style gateways need CONTENT_LENGTH: gw_handle_subrequest() collects a chunked body first
         # (sched "c<n>") or answers 411 when streaming; create_env with an open length is not a server state
         return None
@@ -569,6 +575,8 @@ def oracle_full(line, out):
     sh = simple_head(c.head)
     if sh is None:
         return None
+    if c.op in GW_OPS:
+        return gw_oracle(c, sh, res)
     try:
         if res.startswith("env "):
             toks = res.split(" ")
@@ -576,6 +584,26 @@ def oracle_full(line, out):
             return check_env(c, sh, env, "env")
         if res.startswith("cgi "):
             return check_env(c, sh, envp_decode(C.unhx(res.split(" ")[2]))["env"], "cgi envp")
+        if res.startswith("cgibody "):
+            m = re.match(r"cgibody eof=(\d) pend=(\d+) out=(\S+)$", res)
+            if not m:
+                return "cgi stdin: " + res[:40]
+            delivered, fixed, _ = schedule(c)
+            decl = declared_length(c, sh)
+            length = fixed if fixed is not None else decl
+            if length is None:
+                return None
+            if length == 0:
+                delivered = 0
+            got, src = C.unhx(m.group(3)), c.body()
+            if got != src[:delivered]:
+                return "cgi stdin: body bytes differ from the client's || %d read, %d delivered" % (len(got), delivered)
+            if int(m.group(2)):
+                return "cgi stdin: request body bytes left behind in the server"
+            if (m.group(1) == "1") != (delivered == length):
+                return "cgi stdin: end of input does not coincide with the end of the body || eof=%s %d of %d" % (
+                    m.group(1), delivered, length)
+            return None
         if res.startswith("ok "):
             m = re.match(r"ok reqlen=(-?\d+) in=(\d+) pend=(\d+) out=(\S+)$", res)
             stream = C.unhx(m.group(4))
@@ -705,6 +733,121 @@ def oracle_url(line, out):
     return None
 
 
+# ----------------------------------------------------------------------------- gw_handle_subrequest stream
+GW_OPS = ("gfcgi", "gscgi", "guwsgi", "gproxy")
+
+
+def chunk_raw(body, cseed):
+    """chunked framing of `body` as the harness builds it for a k<len>.<seed>.<cseed>.<rawlen> token"""
+    x = cseed & 0x7fffffff
+    m = (16, 1000, 70000)[cseed % 3]
+    out, pos = bytearray(), 0
+    while pos < len(body):
+        x = (x * 1103515245 + 12345) & 0x7fffffff
+        sz = min(1 + (x >> 4) % m, len(body) - pos)
+        out += b"%x%s\r\n" % (sz, b";ext=1" if (x & 3) == 0 else b"")
+        out += body[pos:pos + sz] + b"\r\n"
+        pos += sz
+    return bytes(out + b"0\r\n\r\n")
+
+
+def canon(out):
+    """the record / chunk boundaries of a gw_handle_subrequest() run depend on read/write timing; both
+    sides are compared after decoding with the independent decoders (env, body digest, termination)"""
+    if " | g" not in out or " out=" not in out:
+        return out
+    import hashlib
+    pre, hexs = out.rsplit(" out=", 1)
+    op = pre.split(" | ", 1)[1].split(" ")[0]
+    try:
+        s = C.unhx(hexs)
+        if op == "gfcgi":
+            d = fcgi_decode(s)
+            dec = "fcgi role=%d flags=%d closed=%d env=%s body=%d:%s" % (
+                d["role"], d["flags"], d["closed"], ",".join(hx(k) + "=" + hx(v) for k, v in d["env"]),
+                len(d["body"]), hashlib.sha1(d["body"]).hexdigest())
+        elif op == "gproxy":
+            d = http_decode(s)
+            i = s.find(b"\r\n\r\n")
+            dec = "http chunked=%d closed=%s head=%s body=%d:%s" % (
+                d["chunked"], d["closed"], hx(s[:i + 4]), len(d["body"]), hashlib.sha1(d["body"]).hexdigest())
+        else:
+            d = scgi_decode(s) if op == "gscgi" else uwsgi_decode(s)
+            dec = "%s env=%s body=%d:%s" % (op[1:], ",".join(hx(k) + "=" + hx(v) for k, v in d["env"]),
+                                            len(d["body"]), hashlib.sha1(d["body"]).hexdigest())
+    except Bad as e:
+        return pre + " UNDECODABLE(%s) out=%s" % (e, hexs)
+    return pre + " dec=" + dec
+
+
+def gw_oracle(c, sh, res):
+    """whole-request run: every client byte was delivered and the backend socket drained"""
+    import hashlib
+    if res in ("nomatch", "st=405"):
+        return None
+    m = re.match(r"g(\w+) rc=(\d+) st=(\d+)(?: gs=(\d+) d=(-?\d+) pend=(\d+) rq=(\d+) (.*))?$", res)
+    if not m:
+        return "gw: unreadable observation"
+    op, st = m.group(1), int(m.group(3))
+    decl = declared_length(c, sh)
+    body = c.body()
+    if st:
+        if st == 411 and decl is None and c.fl & F_STREAM and (op != "proxy" or c.fl & F_HTTP10):
+            return None         # CGI-style gateway / HTTP/1.0 backend, streamed chunked body: Length Required
+        if st in (400, 431) and len(c.head) > 60000:
+            return None         # variables do not fit the protocol's size fields
+        return "gw %s: request answered with an error instead of being passed to the backend || %d" % (op, st)
+    rest = m.group(8)
+    if rest.startswith("UNDECODABLE") or "dec=" not in rest:
+        return "gw %s: malformed backend message || %s" % (op, rest[:120])
+    if int(m.group(6)) or int(m.group(7)):
+        return "gw %s: request body bytes left behind in the server || pend=%s rq=%s" % (op, m.group(6), m.group(7))
+    dec = rest.split("dec=", 1)[1]
+    mb = re.search(r"body=(\d+):([0-9a-f]{40})$", dec)
+    if int(mb.group(1)) != len(body) or mb.group(2) != hashlib.sha1(body).hexdigest():
+        return "gw %s: body received by the backend differs from the client's || %s of %d bytes" % (op, mb.group(1), len(body))
+    env = None
+    me = re.search(r" env=(\S+) body=", dec)
+    if me:
+        env = [tuple(C.unhx(x) for x in e.split("=")) for e in me.group(1).split(",")]
+    if op == "fcgi":
+        if " closed=1 " not in dec:
+            return "gw fcgi: body complete but the stream is not terminated"
+        if " role=1 flags=0 " not in dec:
+            return "gw fcgi: wrong role / flags in BEGIN_REQUEST"
+    if op == "scgi":
+        if env[-1:] != [(b"SCGI", b"1")]:
+            return "gw scgi: SCGI=1 header missing"
+        env = env[:-1]
+    if env is not None:
+        cc = Case.__new__(Case)
+        cc.__dict__.update(c.__dict__)
+        cc.op = op
+        cc.sched = ["c%d" % len(body)]      # CONTENT_LENGTH must be the (decoded) body length
+        cc.bodytok = c.bodytok
+        return check_env(cc, sh, env, "gw " + op)
+    # proxy
+    mh = re.search(r"http chunked=(\d) closed=(\S+) head=(\S+) body=", dec)
+    head = C.unhx(mh.group(3))
+    req = http_decode(head)
+    hd = {}
+    for k, v in req["headers"]:
+        hd.setdefault(k.lower(), []).append(v)
+    if mh.group(1) == "1":
+        if mh.group(2) != "True":
+            return "gw proxy: chunked upload not terminated by a last-chunk"
+        if b"content-length" in hd:
+            return "gw proxy: both Transfer-Encoding and Content-Length sent"
+    elif (len(body) or sh["method"] not in (b"GET", b"HEAD")) and hd.get(b"content-length") != [b"%d" % len(body)]:
+        return "gw proxy: Content-Length is not the body length || %r for %d" % (hd.get(b"content-length"), len(body))
+    for k in (b"proxy", b"proxy-connection"):
+        if k in hd:
+            return "gw proxy: %s forwarded to the backend" % k.decode()
+    if not re.match(rb"^close(, te)?(, upgrade)?$", (hd.get(b"connection") or [b""])[0]):
+        return "gw proxy: Connection field is not 'close[, te][, upgrade]'"
+    return None
+
+
 # ----------------------------------------------------------------------------- coverage classes
 def size_class(n):
     for b, name in ((0, "0"), (1, "1"), (127, "<128"), (65534, "<64K"), (65535, "65535"), (65536, "65536"),
@@ -722,6 +865,17 @@ def classify(line, out):
     if parsed is None:
         return "%s:rejected:%s" % (t[0], res[:8])
     fl = int(t[2])
+    if t[0] in GW_OPS:
+        m = re.match(r"g\w+ rc=(\d+) st=(\d+)(?: gs=(\d+) d=(-?\d+))?", res)
+        if not m:
+            return "%s:%s" % (t[0], res[:8])
+        c = Case(line.split(" P ")[0])
+        return "%s:st%s:gs%s:d%s:fl%x:b%s:%s:steps%d" % (t[0], m.group(2), m.group(3), m.group(4), fl & (F_STREAM | F_HTTP10 | F_CHECKLOCAL),
+                                                     size_class(len(c.body())), c.bodytok[0], min(len(c.sched), 6))
+    if t[0] == "cgibody":
+        c = Case(line.split(" P ")[0])
+        delivered, fixed, done = schedule(c)
+        return "cgibody:%s:fl%x:b%s:seg%d" % (res[:13], fl & (F_TEMP | F_STREAM), size_class(delivered), min(len(c.sched), 4))
     kind = res.split(" ")[0]
     key = "%s:%s:fl%x" % (t[0], kind if not kind.startswith("st=") else kind, fl & (F_AUTH | F_CHECKLOCAL | F_H2EXT | F_UPGRADE | F_TEMP | F_STREAM | F_HTTP10))
     if kind == "ok":
@@ -767,7 +921,7 @@ RENVS = [(), (), ((b"REMOTE_USER", b"bob"), (b"AUTH_TYPE", b"Basic")), ((b"weird
 RADDRS = [b"198.51.100.7", b"198.51.100.7", b"2001:db8::7", b"10.1.2.3"]
 
 
-def gen_head(rng, body_len=None, chunked=False, extra=()):
+def gen_head(rng, body_len=None, chunked=False, extra=(), v11=False):
     m = rng.choice(METHODS)
     if body_len is not None or chunked:
         m = rng.choice([b"POST", b"PUT", b"POST", b"PATCH"])
@@ -776,7 +930,7 @@ def gen_head(rng, body_len=None, chunked=False, extra=()):
     tgt = path + q
     if rng.random() < 0.04:
         tgt = rng.choice([b"http://", b"https://", b"HTTP://"]) + rng.choice(HOSTS_) + tgt
-    v = b"HTTP/1.1" if rng.random() < 0.85 else b"HTTP/1.0"
+    v = b"HTTP/1.1" if v11 or rng.random() < 0.85 else b"HTTP/1.0"
     fl = []
     if v == b"HTTP/1.1" or rng.random() < 0.5:
         fl.append((rng.choice([b"Host", b"host", b"HOST"]), rng.choice(HOSTS_)))
@@ -941,6 +1095,79 @@ def gen_cases(ctx):
                 if rng.random() < 0.5:
                     cfg["fl"] |= F_TEMP
                 lines.append(mkline(op, head, **fix_cfg(cfg, op)))
+    # 4. mod_cgi: request body to the script's stdin (pipe, or the single temp file itself)
+    csizes = SMALL_SIZES + [16383, 16384, 16385, 65535, 65536, 65537, 131072, 300000] + ([1048576 + 1] if q else [1048576 + 1, 4194304 + 7])
+    for i in range(700 if q else 6000):
+        n = csizes[i % len(csizes)] if i < 3 * len(csizes) else rng.choice(SMALL_SIZES + [16384, 65536, 70000])
+        cfg = gen_cfg(rng, "cgi")
+        chunked = rng.random() < 0.25
+        head = gen_head(rng, body_len=None if chunked else n, chunked=chunked, v11=chunked)
+        cfg["body"] = body_tok(rng, n)
+        cfg["fl"] &= ~(F_H2EXT | F_STREAM | F_TEMP)
+        if rng.random() < 0.5:
+            cfg["fl"] |= F_TEMP
+        if rng.random() < 0.4:
+            cfg["fl"] |= F_STREAM
+        # (not streaming: the script is started once the body is complete, so no partial deliveries)
+        cfg["sched"] = "c%d" % n if chunked else rand_sched(rng, n, bool(cfg["fl"] & F_STREAM))
+        lines.append(mkline("cgibody", head, **fix_cfg(cfg, "cgi")))
+    return lines
+
+
+def gw_cases(ctx):
+    """requests run by the real gw_handle_subrequest(): client framing x streaming mode x read/write timing"""
+    rng = ctx.rng
+    q = ctx.quick
+    lines = []
+    sizes = [0, 0, 1, 5, 100, 4096, 16384, 49151, 49152, 65535, 65536, 65537, 70000, 131072, 200000, 262144, 262145,
+             300000]
+    big = [524289, 1048576 + 3] if q else [524289, 1048576 + 3, 2097152 + 1, 4194304, 4194304 + 65536]
+    n_cases = 2400 if q else 20000
+    for i in range(n_cases):
+        op = GW_OPS[i % 4]
+        n = rng.choice(sizes if i >= len(big) * 8 else big + sizes)
+        if i < len(big) * 8:
+            n = big[(i // 8) % len(big)]
+        elif rng.random() < 0.5:
+            n = rng.choice([0, 1, 3, 17, 200, 1000, 5000])
+        cfg = gen_cfg(rng, op[1:])
+        cfg["fl"] &= ~(F_AUTH | F_H2 | F_H2EXT | F_UPGRADE | F_TEMP)
+        mode = rng.random()
+        if mode < 0.45:
+            cfg["fl"] |= F_STREAM
+        chunked = rng.random() < 0.45
+        seed = rng.randint(0, 99999)
+        head = gen_head(rng, body_len=None if chunked else n, chunked=chunked, v11=chunked)
+        head = head.replace(b"Expect:", b"X-Expect:").replace(b"Upgrade:", b"X-Upgrade:")
+        if rng.random() < 0.85:
+            cfg["ext"] = b"/"
+        if chunked:
+            cseed = rng.randint(0, 9999)
+            raw = chunk_raw(gen_body("r%d.%d" % (n, seed)) if n else b"", cseed)
+            cfg["body"] = "k%d.%d.%d.%d" % (n, seed, cseed, len(raw))
+            total = len(raw)
+        else:
+            cfg["body"] = "r%d.%d" % (n, seed) if n else "-"
+            total = n
+        # timing: interleaved client deliveries and backend socket capacities
+        steps = []
+        k = rng.random()
+        if k < 0.25:
+            steps = []
+        elif k < 0.5:
+            steps = ["c%d" % total]
+        else:
+            left = total
+            for _ in range(rng.randint(1, 7)):
+                if rng.random() < 0.6 and left:
+                    d = rng.choice([1, 2, 7, 100, 4096, 16384, 65536, left, max(1, left // 2)])
+                    d = min(d, left)
+                    left -= d
+                    steps.append("c%d" % d)
+                else:
+                    steps.append("w%d" % rng.choice([0, 1, 8, 100, 4096, 16384, 32768, 49152, 65536, 262144, 10 ** 9]))
+        cfg["sched"] = ",".join(steps) if steps else "x"
+        lines.append(mkline(op, head, **fix_cfg(cfg, op[1:])))
     return lines
 
 
@@ -988,6 +1215,9 @@ def run(ctx):
     big = [l for l in lines if not (len(l) < 20000 and " r" not in l)]
     ctx.differential("backend-request(env/cgi/fcgi/scgi/uwsgi/proxy)", [exe], "cgi", small, oracle, classify)
     ctx.differential("backend-request(large PARAMS / large bodies)", [exe], "cgi", big, oracle, classify)
+    glines = add_parsed(exe, gw_cases(ctx))
+    ctx.differential("gw_handle_subrequest (client framing, streaming modes, read/write timing)", [exe], "cgi",
+                     glines, oracle, classify, canon=canon)
     uexe, uerr = C.build_harness("h_url")
     if uexe is None:
         ctx.broken.append({"kind": "harness-build", "names": ["h_url"], "log": uerr[-3000:]})
@@ -999,8 +1229,9 @@ def run(ctx):
                 "(operation, outcome, mode flags, body size class, schedule shape, completion state) tuples")
     ctx.assumptions += ["the request head is parsed by the real parser (modelled and checked under C01); the model "
                         "takes the parsed field list and re-derives path/query with the C02 target model",
-                        "socket writes, fdevent and process management of gw_backend.c are not executed in-process; "
-                        "the write queue is drained completely between hand-over steps",
+                        "backend connect(), response reading, process management and the event loop of gw_backend.c are "
+                        "not executed in-process; the backend socket is scripted (accepts a given number of bytes per event)",
+                        "HTTP/2 DATA reception (h2_recv_data) feeds the same reqbody_queue and is covered by C05/C06, not here",
                         "getsockname() on the client socket fails in the harness (SERVER_ADDR empty for wildcard sockets)"]
 
 
@@ -1016,6 +1247,8 @@ def replay_line(ctx, rep):
         line = add_parsed(exe, [base])[0]       # re-parse with the current tree
     o, rc, e = C.run_lines([exe], [line])
     m, _, _ = C.run_model(model, [line])
+    if line.split(" ")[0] in GW_OPS:
+        o, m = [canon(x) for x in o], [canon(x) for x in m]
     print("input:", line[:2000])
     print("impl :", [x[:2000] for x in o], rc)
     print("model:", [x[:2000] for x in m])
